@@ -2,7 +2,7 @@
    Z / positive / nat stay Coq's datatypes) *)
 Require Import ExtrOcamlBasic.
 From Coq Require Import ZArith List.
-From ZV.Mem Require Import CompressBound CompressCalls.
+From ZV.Mem Require Import CompressBound CompressCalls CompressSplit.
 From ZV.Codec Require Import FrameInspect.
 Extraction "Extract/out/c06model.ml"
   bound compressBound_fn raw_frame replay_frame worst_frame suff_capacity cctx_block_size optimal_block_size nb_blocks
@@ -10,4 +10,5 @@ Extraction "Extract/out/c06model.ml"
   decompress_bound decompression_margin find_decompressed_size DECOMPRESSION_MARGIN
   ser_frames inplace_decode margin_of regen_frames bound_frames
   no_compress_block rle_compress_block write_frame_header write_last_empty_block write_skippable_frame read_skippable_frame
-  raw_two_calls mt_raw_frame.
+  raw_two_calls mt_raw_frame
+  derive_table emitted_partitions weak_block_cost max_partitions kb_blocks MAX_NB_BLOCK_SPLITS MIN_SEQUENCES_BLOCK_SPLITTING.
